@@ -179,7 +179,9 @@ def scenarios(tier):
             Scenario(f"manager, default configuration: <= {6 if q else 8} attempts, <= 3 losses", manager_path(6 if q else 8, 3, False),
                      bounds={"attempts": 6 if q else 8, "losses": 3, "latency_s": "0..2", "lifetime_s": "0..6", "configuration": "max_delay 60, threshold 5, sleep 5"}, domains=("mc",), frontier=5, assumptions=A, replay_cap=150),
             Scenario(f"manager, free max_delay/threshold/sleep in 1..3600: <= {4 if q else 6} attempts, <= 2 losses", manager_path(4 if q else 6, 2, True),
-                     bounds={"attempts": 4 if q else 6, "losses": 2, "max_delay/threshold/sleep": "free integers 1..3600"}, domains=("mc",), frontier=5, assumptions=A, replay_cap=150)]
+                     bounds={"attempts": 4 if q else 6, "losses": 2, "max_delay/threshold/sleep": "free integers 1..3600"}, domains=("mc",), frontier=5, assumptions=A, replay_cap=150),
+            Scenario(f"manager, free max_delay/threshold/sleep in 1..3600: <= {3 if q else 4} attempts, <= 3 losses (a burst of losses)", manager_path(3 if q else 4, 3, True),
+                     bounds={"attempts": 3 if q else 4, "losses": 3, "max_delay/threshold/sleep": "free integers 1..3600"}, domains=("mc",), frontier=5, assumptions=A, replay_cap=150)]
 
 
 def main():
